@@ -2,8 +2,12 @@ pub mod c01;
 pub mod c02;
 pub mod c03;
 pub mod c04;
+pub mod c05;
 pub mod c07;
 pub mod c08;
+pub mod c09;
+pub mod c12;
+pub mod c18;
 
 pub fn dispatch(prop: &str, tier: &str, seed: u64, path: Option<&str>) -> i32 {
     let _ = path;
@@ -25,9 +29,13 @@ pub fn dispatch(prop: &str, tier: &str, seed: u64, path: Option<&str>) -> i32 {
     match prop {
         "C01" => c01::run(tier, seed),
         "C08" => c08::run(tier, seed),
+        "C09" => c09::run(tier, seed),
+        "C12" => c12::run(tier, seed),
+        "C18" => c18::run(tier, seed),
         "C02" => c02::run(tier, seed),
         "C03" => c03::run(tier, seed),
         "C04" => c04::run(tier, seed),
+        "C05" => c05::run(tier, seed),
         "C07" => c07::run(tier, seed),
         _ => {
             eprintln!("unknown property {prop}");
